@@ -301,4 +301,31 @@ example :
     get r ⟨"status", .time⟩ = some (.str "\"t0\"") ∧ get r ⟨"newf", .plain⟩ = some (.str "\"n1\"") ∧
     get r ⟨"newf", .user⟩ = some (.str "\"bob\"") := by decide
 
+/-- **a conditional field keeps its stored value**: in a partial update (not replace) a field listed in the
+    conditionals that the stored annotation holds keeps the stored value — whatever value the request carries for
+    it (unless the request deletes it with a null) — for every original, request, user and time -/
+theorem conditional_keeps_stored (og new : Obj) (user time : String) (cond : List Key) (f : Key) (v : Val)
+    (hf : f.kind = .plain) (hnd : (keys og).Nodup) (hog : get og f = some v) (hc : cond.contains f = true)
+    (hnn : ∀ p ∈ new, p.1 = f → p.2 ≠ .null) :
+    get (updateJSON (some og) new user time cond false) f = some v := by
+  have hdel : f ∉ (new.filter (·.2 == .null)).map (·.1) := by
+    intro h
+    obtain ⟨q, hq, hqe⟩ := List.mem_map.1 h
+    have hm := List.mem_filter.1 hq
+    exact hnn q hm.1 hqe (by simpa using hm.2)
+  unfold updateJSON
+  simp only
+  obtain ⟨og', h1, h2, h3⟩ := fold_dropNull_orig_spec (explicitStamps new .user) (explicitStamps new .time) user time
+    ((new.filter (·.2 == .null)).map (·.1)) new og
+  rw [h1]
+  simp only [Bool.false_eq_true, ↓reduceIte]
+  have hog' : get og' f = some v := by rw [h2]; simp [hdel, hog]
+  rw [fold_stamp_get_plain _ _ _ _ _ _ _ hf]
+  exact fold_carry_get_conditional cond og' _ f v hog' hc (h3 hnd)
+
+/-- the decided example above is an instance: "status" is conditional, stored "Traced", requested "Other" -/
+example : get (updateJSON (some ogDemo) condDemo "\"bob\"" "\"t1\"" [⟨"status", .plain⟩] false) ⟨"status", .plain⟩
+    = some (.str "\"Traced\"") :=
+  conditional_keeps_stored ogDemo condDemo _ _ _ _ _ rfl (by decide) (by decide) (by decide) (by decide)
+
 end Dvid.Props.C16
